@@ -106,16 +106,22 @@ PLAN["C10"] = other(
     "Set operations obey the algebra of labelled time for all 571x571 grid pairs (+6-cell pairs in thorough, random "
     "larger pairs); their kernels are proved for all inputs.", ["c10_setops"])
 PLAN["C14"] = other(
-    "Deductive: the tolerance comparison my_math.lessThanOrEqual / isclose that decides whether a timestamp is moved "
-    "is proved (moved if within maxDifference, untouched beyond maxDifference*(1+1e-14)). Bounded: dejitter, "
-    "alignBoundariesAcrossTiers and morph on dyadic grids (exhaustive) and random decimals.",
-    "Boundary adjusters move times only as far as allowed and keep labels on the stated bounded domain; the threshold "
-    "kernel is proved.", ["c14_adjusters"])
+    "Deductive: PointTier.dejitter proved equal to the spec from the property for all tiers, all reference timestamp "
+    "lists and all maxDifference > 0 (each time moves to the nearest reference timestamp - the first of two "
+    "equidistant ones - iff within maxDifference, inclusive and tolerant like isclose; labels and count kept; "
+    "adjusted times stay in time order; ValueError iff the reference has no timestamps); the per-iteration "
+    "min(..., key=) is handled by an iteration skolem function. The tolerance comparison lessThanOrEqual / isclose "
+    "is proved separately. Bounded: IntervalTier.dejitter, alignBoundariesAcrossTiers and morph on dyadic grids "
+    "(exhaustive) and random decimals.",
+    "Boundary adjusters move times only as far as allowed and keep labels: proved for point-tier dejitter and the "
+    "threshold kernel, the rest on the stated bounded domain.", ["c14_adjusters"])
 PLAN["C15"] = other(
-    "Deductive: getValuesInInterval (start <= t <= end, order kept) and intervalOverlapCheck (no/time threshold, "
-    "boundaryInclusive) proved against interval arithmetic for all inputs. Bounded: find, getNonEntries, timestamps, "
-    "getValuesInIntervals/AtPoints, invertIntervalList, equality, validate on exhaustive small grids.",
-    "Queries agree with their definitions: two helpers proved for all inputs, the rest on the stated bounded domain.",
+    "Deductive: getValuesInInterval (start <= t <= end, order kept), intervalOverlapCheck (no/time threshold, "
+    "boundaryInclusive), find (exact / substring, both tier classes: exactly the matching indices, in order) and "
+    "getNonEntries (exactly the positive-length unlabelled stretches of [0, maxTimestamp], ordered, in span) proved "
+    "for all inputs. Bounded: find with regular expressions, timestamps, getValuesInIntervals/AtPoints, "
+    "invertIntervalList, equality, validate on exhaustive small grids.",
+    "Queries agree with their definitions: four queries proved for all inputs, the rest on the stated bounded domain.",
     ["c15_queries"])
 PLAN["C16"] = other(
     "Deductive: Wav._getIndexAtTime is proved sample-aligned and equal to width*round(t*rate) for the enumerated "
@@ -151,8 +157,10 @@ PLAN["C12"] = other(
     "mapping, duplicate rejected, span only widens, failed calls change nothing) and Textgrid.crop/insertSpace/"
     "editTimestamps proved to return the same names in the same order with each tier = the tier-level operation "
     "(tiers share the span for strict/truncated crop and insertSpace) - for every textgrid with 0..2 existing tiers "
-    "(tier COUNT enumerated; names, indices, spans, contents symbolic). Bounded: exhaustive depth-4/5 histories against "
-    "a list model, mergeTiers, eraseRegion.",
+    "(tier COUNT enumerated; names, indices, spans, contents symbolic); Textgrid.eraseRegion (truncating, tier-wise, span "
+    "shrinks iff doShrink; <= 2 tiers without and <= 1 tier with shrinking) and Textgrid.appendTextgrid (<= 2 tiers "
+    "each: names per onlyMatchingNames, order A then B) likewise. Bounded: exhaustive depth-4/5 histories against a "
+    "list model, mergeTiers.",
     "A Textgrid behaves as an ordered, uniquely named tier map and edits act tier-wise: proved per operation for up to 2 "
     "pre-existing tiers with everything else symbolic; whole histories and the remaining operations on the stated "
     "bounded domain.", ["c12_textgrid_model"], "; the enumeration of the number of existing tiers (0..2) is a bound")
@@ -170,11 +178,12 @@ PLAN["C07"] = other(
     "Deductive: IntervalTier.eraseRegion without shrinking (truncate / categorical / error; the delete loop by the "
     "R-ERASE rule, the re-inserted edge pieces through insertEntry's contract, list equality by the sorted-sets lemma) "
     "and PointTier.eraseRegion with and without shrinking are proved equal to the per-entry spec from the property, "
-    "with span/wf/nothing-inside postconditions. Bounded: shrinking of interval tiers (shift, join of the straddler, "
-    "span end), Textgrid.eraseRegion, and randomized decimals for the rounding clause.",
+    "with span/wf/nothing-inside postconditions; Textgrid.eraseRegion is proved to erase tier by tier in truncate mode, keep "
+    "names and order and shrink the span iff doShrink. Bounded: shrinking of interval tiers (shift, join of the "
+    "straddler, span end) and randomized decimals for the rounding clause.",
     "eraseRegion blanks exactly the region: proved for interval tiers without shrinking and for point tiers in both "
     "modes; the interval shrink/join step and the floating-point clause are checked on the stated bounded domain "
-    "(and are known to fail by rounding: KF10).", ["c07_erase"],
+    "(the rounding defect found there was repaired: fix 334a102).", ["c07_erase"],
     "; precondition of the interval proofs: entries pairwise distinguishable under Interval.__eq__ (sliver region: KF04)")
 PLAN["C05"] = other(
     "Deductive: the class invariant argument - both constructors are proved to establish well-formedness (or raise "
@@ -194,13 +203,17 @@ PLAN["C08"] = other(
     "randomized decimals for the floating-point clause.",
     "insertSpace opens exactly the requested gap for all tiers, points, durations and modes in real arithmetic "
     "(proved); the inverse law and the floating-point clause are checked on the stated bounded domain (the rounding "
-    "clause is known to fail: KF10).", ["c08_insert_space"])
+    "defect found there was repaired: fix 334a102).", ["c08_insert_space"])
 PLAN["C09"] = other(
     "Deductive: editTimestamps (both tier classes, textgrids) and appendTier proved equal to the property-derived specs "
-    "(shift, drop, clip, OutOfBounds iff error mode and out of the old span, hull span). Bounded: the same on grids "
-    "plus Textgrid.appendTextgrid with the onlyMatchingNames name policy and the +x/-x law.",
-    "Shifting and tier concatenation move every entry by exactly the stated amount (proved for all inputs); "
-    "appendTextgrid and the round-trip law on the stated bounded domain.", ["c09_shift_append"])
+    "(shift, drop, clip, OutOfBounds iff error mode and out of the old span, hull span); Textgrid.appendTextgrid proved "
+    "equal to the spec from the property (A's entries followed by B's shifted by A's end, span [A.min, A.max + B.max], "
+    "names per onlyMatchingNames, order A then B) for textgrids with 0..2 tiers each whose tiers share their "
+    "textgrid's span (tier COUNT enumerated; names, spans and contents symbolic). Bounded: the same on grids plus the "
+    "+x/-x law.",
+    "Shifting and concatenation of tiers and of textgrids (<= 2 tiers each) move every entry by exactly the stated "
+    "amount (proved for all inputs); the round-trip law and larger textgrids on the stated bounded domain.",
+    ["c09_shift_append"], "; the enumeration of the number of tiers per textgrid (0..2) is a bound")
 PLAN["C11"]["bounded"] = ["c11_list_model"]
 PLAN["C11"]["level"] = "other"
 PLAN["C11"]["technique"] = MIXED
@@ -243,6 +256,14 @@ CANARIES = [
     {"name": "append-shift", "props": ["C09"], "file": "praatio/data_classes/textgrid_tier.py",
      "target": "praatio.data_classes.textgrid_tier.TextgridTier.appendTier",
      "old": "        appendTier = tier.editTimestamps(\n            self.maxTimestamp,", "new": "        appendTier = tier.editTimestamps(\n            self.maxTimestamp - self.minTimestamp,"},
+    {"name": "appendtg-shift", "props": ["C09"], "file": "praatio/data_classes/textgrid.py",
+     "target": "praatio.data_classes.textgrid.Textgrid.appendTextgrid",
+     "old": "appendTier = appendTier.editTimestamps(self.maxTimestamp)",
+     "new": "appendTier = appendTier.editTimestamps(tg.maxTimestamp)", "config": ["ka=1,kb=1,onlyMatchingNames=True"]},
+    {"name": "appendtg-policy", "props": ["C09", "C12"], "file": "praatio/data_classes/textgrid.py",
+     "target": "praatio.data_classes.textgrid.Textgrid.appendTextgrid",
+     "old": "if onlyMatchingNames is False:", "new": "if onlyMatchingNames is True:",
+     "config": ["ka=1,kb=1,onlyMatchingNames=True", "ka=1,kb=1,onlyMatchingNames=False"]},
     {"name": "space-boundary", "props": ["C08"], "file": IT, "target": ITC + ".insertSpace",
      "old": "            if interval.end <= start:\n                newEntryList.append(interval)\n            # Entry exists after",
      "new": "            if interval.end < start:\n                newEntryList.append(interval)\n            # Entry exists after",
@@ -277,6 +298,14 @@ CANARIES = [
      "target": "praatio.data_classes.textgrid.Textgrid.replaceTier",
      "old": "            self.addTier(oldTier, tierIndex, constants.ErrorReportingMode.SILENCE)\n", "new": "            pass\n",
      "config": ["k=2,reportingMode=silence"]},
+    {"name": "tgerase-span", "props": ["C12", "C07"], "file": "praatio/data_classes/textgrid.py",
+     "target": "praatio.data_classes.textgrid.Textgrid.eraseRegion",
+     "old": "            maxTimestamp = start + (maxTimestamp - end)", "new": "            maxTimestamp = maxTimestamp - end",
+     "config": ["k=0,doShrink=True", "k=1,doShrink=True"]},
+    {"name": "tgerase-mode", "props": ["C07", "C12"], "file": "praatio/data_classes/textgrid.py",
+     "target": "praatio.data_classes.textgrid.Textgrid.eraseRegion",
+     "old": "start, end, constants.EraseCollision.TRUNCATE, doShrink", "new": "start, end, constants.EraseCollision.CATEGORICAL, doShrink",
+     "config": ["k=1,doShrink=False"]},
     {"name": "tgcrop-span", "props": ["C12", "C06"], "file": "praatio/data_classes/textgrid.py",
      "target": "praatio.data_classes.textgrid.Textgrid.crop",
      "old": "            maxT = cropEnd - cropStart\n        else:\n            minT = cropStart\n            maxT = cropEnd\n        newTG",
@@ -308,6 +337,17 @@ CANARIES = [
     {"name": "lte-tolerance", "props": ["C14"], "file": "praatio/utilities/my_math.py",
      "target": "praatio.utilities.my_math.lessThanOrEqual",
      "old": "    return isclose(a, b) or a < b", "new": "    return isclose(a, b, 1e-3) or a < b"},
+    {"name": "pdejitter-farthest", "props": ["C14"], "file": PT, "target": PTC + ".dejitter",
+     "old": "timeCompare = min(referenceTimestamps", "new": "timeCompare = max(referenceTimestamps"},
+    {"name": "pdejitter-strict", "props": ["C14"], "file": PT, "target": PTC + ".dejitter",
+     "old": "if my_math.lessThanOrEqual(abs(time - timeCompare), maxDifference)",
+     "new": "if abs(time - timeCompare) < maxDifference"},
+    {"name": "find-substr-swapped", "props": ["C15"], "file": "praatio/data_classes/textgrid_tier.py",
+     "target": "praatio.data_classes.textgrid_tier.TextgridTier.find",
+     "old": "if matchLabel in entry.label:", "new": "if entry.label in matchLabel:"},
+    {"name": "nonentries-keep-empty", "props": ["C15"], "file": IT,
+     "target": ITC + ".getNonEntries",
+     "old": "if interval.start < interval.end", "new": "if interval.start <= interval.end"},
     {"name": "values-in-interval", "props": ["C15"], "file": U, "target": "praatio.utilities.utils.getValuesInInterval",
      "old": "if start <= time and end >= time:", "new": "if start <= time and end > time:"},
     {"name": "getinterval-clamp", "props": ["C18"], "file": U, "target": "praatio.utilities.utils.getInterval",
